@@ -191,7 +191,9 @@ def run(ctx):
                 lsteps = hist.directed_resend(lws, ctx.rng) if h % 2 == 1 else \
                     hist.gen_history(lws, ctx.rng, ctx.rng.randint(3, max_steps), parses=lambda t: vh.call(op="parses", text=t)["ok"])
                 if lsteps:
-                    lsp_history(ctx, lws, lsteps)
+                    # (the back-to-back burst re-analyses the last document, which would heal a stale state left by the
+                    # history itself: only every other generated history ends with one, the directed ones never)
+                    lsp_history(ctx, lws, lsteps, burst=(h % 4 == 0))
                 shutil.rmtree(lroot, ignore_errors=True)
             ctx.sample({"workspace": ws.spec, "history": [(s["op"], s["rel"], s["valid"]) for s in steps]})
             ctx.count("histories")
@@ -232,7 +234,7 @@ def lsp_observe(srv, ws, docs, model_files):
     return obs
 
 
-def lsp_history(ctx, ws, steps):
+def lsp_history(ctx, ws, steps, burst=False):
     """the same comparison through the real server: history server vs fresh server opening only the latest texts"""
     from ..lsp import LSP
     from ..runner import srv_bin
@@ -259,7 +261,7 @@ def lsp_history(ctx, ws, steps):
                     last_ok.remove(st["rel"])
                 last_ok.append(st["rel"])
         # two more versions of the last document back to back (a large paste, then back to the text): only the last counts
-        if steps and steps[-1]["valid"] and steps[-1]["rel"] in opened:
+        if burst and steps and steps[-1]["valid"] and steps[-1]["rel"] in opened:
             rel_ = steps[-1]["rel"]
             f_ = ws.abs(rel_)
             big = steps[-1]["text"] + "\n\nimport pytest\n" + "".join(
